@@ -71,6 +71,26 @@ def check(repo: Repo, R) -> None:
         ok = len(named) == 1 and len(apps) >= 1 and not reb
     R.check(ok, rule, key_of(fsd), fsd.site, f"the @sim decorator names each class-body attribute itself (the object other attributes refer to), not a copy, and collects that same object: {ok}",
             why="attributes that refer to other class-level attributes (a Dc over a Param, a sweep over inner analyses) keep unnamed originals: they are exported with empty or generated names")
+    if len(loops) == 1 and len(named) == 1 and apps:
+        # every collected attribute is named after its key, except the one documented throw-away key "_"
+        (np_, nk_), nopq = shared.key_tests(fsd.node, named[0][0], kv)
+        (ap_, ak_), aopq = shared.key_tests(fsd.node, apps[0][0], kv)
+        extra = (nk_ - ak_) if (not np_ and not ap_) else None
+        ok = extra is not None and not nopq and not aopq and extra <= {"_"}
+        R.check(ok, rule, key_of(fsd, "named-unless-underscore"), fsd.at(named[0][0]),
+                f"@sim leaves a collected attribute unnamed only under the key '_': " + (f"unnamed keys {sorted(extra)}" if extra is not None and not nopq and not aopq else f"decided by {nopq + aopq or 'a positive list of keys'}"),
+                why="`_dc = Dc(..)` in a class body is exported as `Analysis0` (a Param as ''): the class-defined Sim differs from the procedural one")
+    # exporting reads the Sim: nothing is written back onto it or its attributes
+    smp = ast.parse("def f(self, an):\n    for x in an.inner:\n        x.name = self.next()\n").body[0]
+    if len(shared.input_writes(smp)) != 1:
+        raise AnalysisError("self-check failed: the input-writes rule does not see its positive sample")
+    nfun = 0
+    for fi_ in repo.funcs_in(F_SIMPROTO):
+        nfun += 1
+        for node_, what_ in shared.input_writes(fi_.node, extra_roots={"self.sim"}):
+            R.check(False, rule, key_of(fi_, "input-written"), fi_.at(node_), f"{fi_.name} writes into the Sim it exports: {what_}",
+                    why="a generated name (or any other export-time value) outlives the export: exporting the same analysis again, in another position or another Sim, yields two analyses under one name — the export depends on what was exported before")
+    R.check(nfun >= 10, rule, f"{F_SIMPROTO}::read-only", F_SIMPROTO, f"{nfun} functions of {F_SIMPROTO} write nothing into the Sim, its attributes or their members", why="the export changes its input")
     fadd = repo.func(F_SIMDATA, "Sim.add")
     lp = [n for n in au.walk_no_nested(fadd.node) if isinstance(n, ast.For) and ast.unparse(n.iter) == "attrs"]
     ok = False
